@@ -1,6 +1,7 @@
 // History monitor for DirectedMultigraph / UndirectedMultigraph.
 // Serves C04, C06, C16 (multigraph part).
 #include "hist.hpp"
+#include "snapshot.hpp"
 
 namespace vf {
 namespace {
@@ -402,6 +403,7 @@ template <class G> struct Monitor {
             R.states.insert(sh);
             hh = mix64(hh, sh);
         }
+        R.digest(snapshot(s.g));
         R.distinct.insert(hh);
         if (sub < 15 && R.samples.size() < 4) R.sample("{\"class\": " + q(cls) + ", \"start_size\": " + std::to_string(n0) + ", \"history\": " + s.histJson() + "}");
     }
@@ -449,6 +451,7 @@ template <class G> struct Monitor {
                 return;
             }
         }
+        R.digest(snapshot(s.g));
         R.distinct.insert(hh);
         if (sub < 4 && R.samples.size() < 6) R.sample("{\"class\": " + q(cls) + ", \"start_size\": " + std::to_string(n) + ", \"history\": " + s.histJson() + "}");
     }
@@ -478,11 +481,13 @@ template <class G> struct Monitor {
         static const unsigned startN[] = {0, 1, 2, 3, 5};
         unsigned n0 = startN[sub % 5];
         Subject<G> A(n0);
-        randomWalk(r, A, 5 + r.u(50), r.u(3), cfg.maxN);
+        unsigned lenA = 5 + r.u(50), styleA = r.u(3); // sequenced: argument evaluation order is unspecified
+        randomWalk(r, A, lenA, styleA, cfg.maxN);
         const MModel &T = A.m;
         unsigned nb = r.u(T.n + 1);
         Subject<G> B(nb);
-        randomWalk(r, B, r.u(45), r.u(3), T.n);
+        unsigned lenB = r.u(45), styleB = r.u(3);
+        randomWalk(r, B, lenB, styleB, T.n);
         while (B.m.n < T.n) {
             Op op; op.kind = RESIZE; op.k = 1 + r.u(T.n - B.m.n);
             B.apply(op);
